@@ -27,58 +27,7 @@ def _native(call):
     return "import sys; sys.path.insert(0, %r)\nfrom native import c18\nc18.%s\n" % (here, call)
 
 
-class InProc:
-    """The C18 obligations are ground or tiny quantifier-free linear-integer queries; they are decided by z3 in the checking
-    process (sub-millisecond each) instead of one forked solver each.  `unknown` falls through to the usual forked discharge.
-    Native replays are limited to the first refuted obligation of each clause (the others are reported from the ledger)."""
-    _replayed = None
-
-    def replay_once(self, ob):
-        if self._replayed is None:
-            self._replayed = set()
-        if ob.clause in self._replayed:
-            return False
-        self._replayed.add(ob.clause)
-        return True
-
-    def decide(self):
-        from pyvc.contract import generate
-        cr = generate(self)
-        for ob in cr.obligations:
-            try:
-                _decide_in_process(ob)
-            except Exception:
-                pass
-        return cr
-
-
-def _decide_in_process(ob):
-    import time
-    t0 = time.time()
-    s = z3.Solver()
-    s.set('timeout', 3000)
-    for h in ob.hyps:
-        s.add(h)
-    if ob.kind == 'cover':
-        r = s.check()
-        if r == z3.sat:
-            ob.status, ob.decided = 'proved', True
-        elif r == z3.unsat:
-            ob.status, ob.decided = 'vacuous', True
-    else:
-        s.add(z3.Not(ob.goal))
-        r = s.check()
-        if r == z3.unsat:
-            ob.status, ob.decided = 'proved', True
-        elif r == z3.sat:
-            m = s.model()
-            ob.model = {}
-            for d in m.decls():
-                if d.arity() == 0:
-                    ob.model[d.name()] = str(m[d])
-            ob.status, ob.decided = 'refuted', True
-    if getattr(ob, 'decided', False):
-        ob.backend, ob.seconds, ob.output = 'z3-%s (in-process)' % z3.get_version_string(), time.time() - t0, ''
+from pyvc.inproc import InProc  # noqa: E402  (obligations are ground / tiny QF queries: decided in-process)
 
 
 class FileV(Sym):
@@ -816,16 +765,28 @@ class ResumeIndex(InProc, Contract):
         return [('resumes-with-the-history-it-was-given', z3.BoolVal(bool(ok)))]
 
 
+def _context_contracts():
+    from contracts import c18_contexts
+    return c18_contexts.contracts()
+
+
 def contracts():
     return [Wrapper(s) for s in ('disabled', 'hit', 'hit-old', 'miss-eof', 'miss-unpickling', 'miss-index', 'miss-old-fail')] + [KeyOfFunction()] \
         + [WrapperTwice(s) for s in ('over-longer-old-format-entry', 'over-longer-garbage', 'into-empty-file')] \
-        + [RecursionIter('enabled'), RecursionIter('disabled'), ResumeIndex()]
+        + [RecursionIter('enabled'), RecursionIter('disabled'), ResumeIndex()] + _context_contracts()
 
 
 TRUSTED = ['pyvc symbolic executor on the nested closure cache.function.wrapper; closure variables func, func_key, canonicalize supplied by the contract',
-           'pickle.load either returns the stored object or raises EOFError/UnpicklingError/IndexError (ASSUMED; which exception a cut-off stream raises is exactly what a crash-point analysis would have to establish)',
+           'pickle.load on a file positioned at the start of a pickle returns that object and reads nothing beyond its STOP opcode (trailing bytes of an older, longer entry are never looked at); on an empty file it raises EOFError; pickle.dump writes one complete pickle at the current position and does not truncate (cross-checked natively on random entries, native/axioms.py)',
+           'ASSUMED: a cut-off (truncated) or otherwise unreadable entry makes pickle.load raise EOFError, UnpicklingError or IndexError -- the classes the code catches.  Cross-checked for EVERY truncation point of random entries (native/axioms.py: only EOFError/UnpicklingError occur with the C unpickler); NOT true for arbitrary corrupt bytes (notes/C18-c18.md)',
+           'file system as a state machine per item file: missing | empty | cut-off | complete entry | stop marker; touch() creates a missing file empty; open("r+b") of a missing file raises OSError; open for writing empties it; seek(0) returns to offset 0',
+           'contextlib.contextmanager: the with-block runs at the single yield of the generator and its exception is raised there (pyvc runs the block at the yield point); functools.wraps and util.defaults_from_env return the function unchanged (no NUTILS_CACHE* environment variables); pathlib.Path(x).expanduser() is Path(x)',
+           'fcntl.flock(f, LOCK_EX) blocks until it holds an exclusive lock tied to the open file description (mutual exclusion itself is the kernel\'s and is ASSUMED)',
            'injectivity / order-independence of the key follows from the block structure by the C17 arguments (SHA-1 idealised)']
-ASSUMPTIONS = ['complete histories only: the cache file is either absent/empty/corrupt-in-a-caught-way or holds one complete entry at offset 0',
-               'argument_canonicalizer returns the canonical (args, kwargs); file locking provides mutual exclusion']
-NOT_COVERED = ['every truncation point of a pickle, partial overwrite of a longer stale entry, flock mutual exclusion across processes, resumption of Recursion after arbitrary partial runs: crash points, histories and schedules -- this family has nothing to say',
-               'cache.Recursion history window (DESIGN 4.18; not built)']
+ASSUMPTIONS = ['histories are COMPLETE or CLEANLY INTERRUPTED: a cache.function file is absent/empty/unreadable-in-a-caught-way or holds one complete entry at offset 0 (possibly followed by the tail of an older longer entry); a Recursion directory holds n complete items written by an earlier run of the same recursion, then a missing/empty/cut-off item or the stop marker, then arbitrary stale files',
+               'the wrapped function / recursion is deterministic (the docstrings\' requirement): resume_index(history, index) given the last min(index, length) values continues the sequence that the recursion yields from scratch; given another history it yields something else',
+               'BOUNDED: the consumer of Recursion.__iter__ takes at most 4 items (loop over item files unrolled); number of cached items, recursion length, position and manner of the recursion\'s end are symbolic',
+               'argument_canonicalizer returns the canonical (args, kwargs); file locking provides mutual exclusion; type(self).length >= 0']
+NOT_COVERED = ['being KILLED at an arbitrary byte while OVERWRITING a longer stale entry (prefix of the new pickle followed by old bytes), arbitrary corrupt bytes (pickle.load can then raise ValueError/TypeError/UnicodeDecodeError/... or return a wrong object), flock mutual exclusion across processes and concurrent callers: crash points and schedules -- this family has nothing to say',
+               'Recursion beyond 4 consumed items (no loop invariant over the item loop; the engine evaluates generators eagerly)',
+               'msvcrt locking (Windows), the retry loop of _lock_file_msvcrt']
